@@ -56,6 +56,7 @@ def main():
             note = ' suite: %s' % line
             if not ok:
                 print('%-45s %s  NOT A VALID MUTANT (test suite)%s' % (name, pid, note))
+                missed += 1         # a change the suite notices (or that no longer applies) proves nothing: replace it
                 continue
         t0 = time.time()
         a = sh('git -C /repo apply %s' % diff)
